@@ -396,9 +396,35 @@ def onPacketWritten (tbl : TxnTable) (p : Packet) : TxnTable :=
 
 /-! ### DecodeMessage / parseAMFObject -/
 
-/-- `parseAMFObject`: which packet to construct for an AMF command/data payload. A response
-(`_result`/`_error`) is looked up by its transaction id and the entry is deleted — before the body is
-decoded, so the entry is gone also when decoding then fails. The table is returned in every case. -/
+/-- The packet type each constructor of the library returns (`none` for the three switch-arm outcomes
+that are not constructors). Gated against the generated `ctorGoType` in Props/C03. -/
+def ctorKind : Gen.Rtmp.Ctor → Option Kind
+  | .NewConnectAppPacket => some .connect
+  | .NewConnectAppResPacket => some .connectRes
+  | .NewCreateStreamPacket => some .createStream
+  | .NewCreateStreamResPacket => some .createStreamRes
+  | .NewPublishPacket => some .publish
+  | .NewPlayPacket => some .play
+  | .NewCallPacket => some .call
+  | .NewCloseStreamPacket => some .call
+  | .NewSetChunkSize => some .setChunkSize
+  | .NewWindowAcknowledgementSize => some .winAck
+  | .NewSetPeerBandwidth => some .setPeerBw
+  | .NewUserControl => some .userControl
+  | .parseAMFObject => none
+  | .rejected => none
+  | .response => none
+
+/-- A switch arm that constructs a packet (`pkt = NewT()` / `return NewT(), nil`) or rejects
+(`return nil, err`). -/
+def ctorResult (c : Gen.Rtmp.Ctor) (tbl : TxnTable) : Res Kind × TxnTable :=
+  match ctorKind c with
+  | some k => (.ok k, tbl)
+  | none => (.err .generic, tbl)
+
+/-- `parseAMFObject`: which packet to construct for an AMF command/data payload (generated switch arms).
+A response (`_result`/`_error`) is looked up by its transaction id and the entry is deleted — before the
+body is decoded, so the entry is gone also when decoding then fails. The table is returned in every case. -/
 def parseAMFObject (tbl : TxnTable) (p : Bytes) : Res Kind × TxnTable :=
   match strDec p with
   | .err k => (.err k, tbl)
@@ -412,25 +438,17 @@ def parseAMFObject (tbl : TxnTable) (p : Bytes) : Res Kind × TxnTable :=
       | .ok tid =>
         match tbl.find tid with
         | none => (.err .generic, tbl)                        -- "No matched request"
-        | some req =>
-          let tbl' := tbl.erase tid
-          match Gen.Rtmp.parseResponseArm req with
-          | .NewConnectAppResPacket => (.ok .connectRes, tbl')
-          | .NewCreateStreamResPacket => (.ok .createStreamRes, tbl')
-          | .rejected => (.err .generic, tbl')
-    | .NewConnectAppPacket => (.ok .connect, tbl)
-    | .NewPublishPacket => (.ok .publish, tbl)
-    | .NewCallPacket => (.ok .call, tbl)
+        | some req => ctorResult (Gen.Rtmp.parseResponseArm req) (tbl.erase tid)
+    | c => ctorResult c tbl
 
-/-- The tail of `DecodeMessage` for an AMF message: `parseAMFObject` chose the constructor (or failed),
-then `pkt.UnmarshalBinary(p)`. -/
+/-- The tail of `DecodeMessage`: the constructor was chosen (or not), then `pkt.UnmarshalBinary(p)`. -/
 def decodeWith (r : Res Kind × TxnTable) (p : Bytes) : Res Packet × TxnTable :=
   match r with
   | (.ok k, tbl') => (unmarshal k p, tbl')
   | (.err e, tbl') => (.err e, tbl')
   | (.panic, tbl') => (.panic, tbl')
 
-/-- `DecodeMessage` with the table state made explicit. -/
+/-- `DecodeMessage` with the table state made explicit (generated switch arms). -/
 def dispatchSt (tbl : TxnTable) (m : Msg) : Res Packet × TxnTable :=
   if m.payload.length = 0 then (.err .generic, tbl) else
   match (if Gen.Rtmp.decodeMessageSkipsOneByte m.hdr.ty then sliceFrom m.payload 1 else ok m.payload) with
@@ -438,12 +456,8 @@ def dispatchSt (tbl : TxnTable) (m : Msg) : Res Packet × TxnTable :=
   | .panic => (.panic, tbl)
   | .ok p =>
     match Gen.Rtmp.decodeMessageArm m.hdr.ty with
-    | .NewSetChunkSize => (unmarshal .setChunkSize p, tbl)
-    | .NewWindowAcknowledgementSize => (unmarshal .winAck p, tbl)
-    | .NewSetPeerBandwidth => (unmarshal .setPeerBw p, tbl)
-    | .NewUserControl => (unmarshal .userControl p, tbl)
-    | .rejected => (.err .generic, tbl)
     | .parseAMFObject => decodeWith (parseAMFObject tbl p) p
+    | c => decodeWith (ctorResult c tbl) p
 
 /-- `DecodeMessage` as a result: the packet and the table afterwards. -/
 def dispatch (tbl : TxnTable) (m : Msg) : Res (Packet × TxnTable) :=
